@@ -7,6 +7,18 @@ ids = [json.loads(l)["id"] for l in open(os.path.join(ROOT, "properties.jsonl"))
 
 TECH = "deterministic whole-program simulation (std-facade substitution under a seeded scheduler) with fault injection; "
 CLAIMED = {
+    "C10": dict(
+        level="exploration", ref="DESIGN.md 5/C10",
+        text="Grammar-based hostile lines (every parser command word x hostile token alphabet, raw bytes, pipelining without reading) are sent over the real TCP / WebSocket / HTTP handlers of a node booted by start_db on the simulated wire, unauthenticated and as administrator; after every line the harness checks that no task of the node panicked and that a second client can connect and complete a set/get round trip; sampling.",
+        note="overflow checks on (test-profile semantics); panics are caught per task like OS threads and recorded with their source location; ws/http wire framing is the facade's",
+        technique=TECH + "seeded grammar fuzzing of the wire protocol with panic capture and liveness probes",
+    ),
+    "C17": dict(
+        level="exploration", ref="DESIGN.md 5/C17",
+        text="Seeded sequences of connect / use-db (same, other, wrong token, user token) / refused command / disconnect / HTTP request over the three real transports on the simulated wire; a counted observer session per database compares $connections with a counter model at every quiescent point and checks that its watcher saw every change; an interleaved scenario judges the end state of two concurrent sessions.",
+        note="compared at quiescent points only; simulated TCP and ws/tiny_http facades",
+        technique=TECH + "per-event comparison with a session-counter model through the public surface",
+    ),
     "C12": dict(
         level="exploration", ref="DESIGN.md 5/C12",
         text="Logs are produced by the real replication loop of a simulated primary (real rotation, real declutter retention, restarts, optional coarse clock) and every query of read_operations_since / last_op_time is compared with a linear scan of the same simulated files; sampling of logs and since values.",
